@@ -101,6 +101,12 @@ pub fn run(ctx: &Ctx) {
     grid.push(SignCase { hash: HashId::Sha256_256, levels: vec![(1, 2); 8], seed: gen::SeedSpec::Random(8), counter: 9, counter_class: "siglen".into(), msg: gen::MsgSpec { len: 10, tag: 8 } });
     // a child tree of height 15 (type code 7) below a small root, at a leaf beyond 8 bits
     grid.push(SignCase { hash: HashId::Shake256_128, levels: vec![(8, 2), (2, 15)], seed: gen::SeedSpec::Random(15), counter: 2 * 32768 + 30_000, counter_class: "h15-child".into(), msg: gen::MsgSpec { len: 21, tag: 15 } });
+    // messages longer than 64 KiB
+    for (k, len) in [65_535usize, 65_536, 65_537, 70_001, 131_072, 200_000].iter().enumerate() {
+        for h in [ALL_HASHES[k % 6], ALL_HASHES[(k + 3) % 6]] {
+            grid.push(SignCase { hash: h, levels: vec![(8, 2)], seed: gen::SeedSpec::Random(k as u64), counter: (k % 4) as u64, counter_class: "msg-64k".into(), msg: gen::MsgSpec { len: *len, tag: k as u64 } });
+        }
+    }
     // every message length 0..=200 (hash block boundaries of the message digest), rotating hash / W / counter
     for len in 0..=200usize {
         let h = ALL_HASHES[len % 6];
